@@ -156,17 +156,23 @@ def scan_forbidden(mods: list[str]):
     return hits
 
 
-def axiom_audit(prop: str, timeout=1800):
-    """Runs RdVerif/Audit/<prop>.lean; returns (ok, {theorem: [axioms]}, log)."""
-    f = LEAN / "RdVerif" / "Audit" / f"{prop}.lean"
-    rc, out, err = run(["lake", "env", "lean", str(f.relative_to(LEAN))], cwd=LEAN, timeout=timeout)
+def axiom_audit(prop: str, theorems: list[str], targets: list[str], timeout=1800):
+    """Writes .work/Audit_<prop>.lean (`#print axioms` for every fully-qualified theorem name) and
+    runs it; returns (ok, {theorem: [axioms]}, log).  A theorem that no longer exists makes lean
+    report an error for that line and is simply missing from the result."""
+    WORK.mkdir(exist_ok=True)
+    f = WORK / f"Audit_{prop}.lean"
+    lines = [f"import {t}" for t in targets if t.startswith("RdVerif.Props") or t.startswith("RdVerif.Proofs")]
+    lines += [f"#print axioms {t}" for t in theorems]
+    f.write_text("\n".join(lines) + "\n")
+    rc, out, err = run(["lake", "env", "lean", str(f)], cwd=LEAN, timeout=timeout)
     log = out + err
     thms: dict[str, list[str]] = {}
     for m in re.finditer(r"'([^']+)' depends on axioms: \[([^\]]*)\]", log, flags=re.S):
         thms[m.group(1)] = [a.strip() for a in m.group(2).replace("\n", " ").split(",") if a.strip()]
     for m in re.finditer(r"'([^']+)' does not depend on any axioms", log):
         thms[m.group(1)] = []
-    ok = rc == 0 and bool(thms)
+    ok = bool(thms)
     for t, ax in thms.items():
         if not set(ax) <= ALLOWED_AXIOMS:
             ok = False
